@@ -90,8 +90,11 @@ func refRange(args []float64) (out []float64, mustErr, mayErr bool) {
 		if step == 0 {
 			return nil, true, true
 		}
+		// the two documented-invalid combinations of the 3-argument form ("the end value should be
+		// greater than start value"; a negative step with end > start): "invalid argument combinations
+		// yield an error"
 		if (start > end && end > 0) || (step < 0 && end > start) {
-			mayErr = true
+			return nil, true, true
 		}
 	default:
 		return nil, true, true
@@ -433,6 +436,16 @@ func runWith(w *core.Worker, c Case, sp int) {
 					fail("Abs", "Abs(int8 %d)=%d", num, a)
 				}
 			}
+			// InRange also over the empty intervals lo > hi (its defining inequality lo <= num <= hi has
+			// no solution there); Clamp is only defined for lo <= hi
+			for lo := -128; lo <= 127; lo++ {
+				for hi := -128; hi < lo; hi++ {
+					if gogu.InRange(num, int8(lo), int8(hi)) {
+						fail("InRange-empty-interval", "InRange(int8 %d,%d,%d)=true although %d <= num <= %d has no solution", num, lo, hi, lo, hi)
+						return
+					}
+				}
+			}
 			for lo := -128; lo <= 127; lo++ {
 				for hi := lo; hi <= 127; hi++ {
 					got := gogu.Clamp(num, int8(lo), int8(hi))
@@ -726,7 +739,7 @@ func TestProp(t *testing.T) {
 		for v := -128; v <= 127; v++ {
 			emit(Case{Fn: "Int8", V: v})
 		}
-		r.Exhaustive("Abs on all int8 but -128; Clamp and InRange on ALL int8 triples (num, lo<=hi)", 256*(256*257/2))
+		r.Exhaustive("Abs on all int8 but -128; Clamp on ALL int8 triples (num, lo<=hi); InRange on ALL int8 triples incl. the empty intervals lo>hi", 256*256*256)
 		for a := -3; a <= 3; a++ {
 			for b := -3; b <= 3; b++ {
 				emit(Case{Fn: "Compare", S: []int{a, b}})
